@@ -23,7 +23,9 @@ ExpRow(i) == [exp |-> DeclExpected(i, entries[i]),
 
 Row == [top |-> top, far |-> far, entries |-> entries, shape |-> shape, out |-> out, log |-> log,
         per |-> [i \in DOMAIN entries |-> ExpRow(i)],
-        nobatch |-> BatchDisabled, validator |-> HasValidator, processed |-> PureProcessed, topcode |-> PureTopCode]
+        nobatch |-> BatchDisabled, validator |-> HasValidator, processed |-> PureProcessed, topcode |-> PureTopCode,
+        \* the context dimension: its state at arrival and at the end, the transport's gate, what the handlers saw
+        cx0 |-> cx0, cx |-> cx, gated |-> gated, seen |-> seen, pool |-> PoolSize]
 
 fullview == <<view, want>>
 
@@ -88,6 +90,7 @@ Emit ==
   /\ top' = "none" /\ far' = FALSE /\ entries' = <<>> /\ phase' = "build" /\ nxt' = 1 /\ running' = {}
   /\ called' = [i \in Idx |-> NoResp] /\ stage' = [i \in Idx |-> "idle"]
   /\ out' = <<>> /\ shape' = "pending" /\ log' = <<>> /\ want' = 0
+  /\ cx' = "live" /\ cx0' = "live" /\ gated' = FALSE /\ seen' = <<>>
 
 MBTNext == IF phase = "done" THEN Emit ELSE IF phase = "build" THEN SimBuild ELSE SimRun
 =============================================================================
